@@ -35,10 +35,11 @@ type Opt struct {
 	Ctor         int // percentage of producers built by a constructor function (0 = 25)
 	Alpha        int // percentage of bound names spelt with random initial letters (a..z) instead of the fixed prefixes
 	Wide         int // percentage of capturing servers whose context is padded with 7..11 fresh unit channels
+	Cycle        int // percentage of programs with two extra top-level processes that refer to each other (one drops the other)
 }
 
 func DefaultOpt(r *rand.Rand) Opt {
-	o := Opt{MaxSplit: 3, Pol: 4, Alias: 30, ExplicitSelf: 10, ExplicitProv: 10, Exec: 15, Print: 12, TopMax: 3, Fuel: 3, MultiProv: 25, Drop: 12, Split: 14, Tail: 8, CutFwd: 25}
+	o := Opt{MaxSplit: 3, Pol: 4, Alias: 30, ExplicitSelf: 10, ExplicitProv: 10, Exec: 15, Print: 12, TopMax: 3, Fuel: 3, MultiProv: 25, Drop: 12, Split: 14, Tail: 8, CutFwd: 25, Cycle: 10}
 	switch r.Intn(10) {
 	case 0, 1, 2:
 		o.Mixed = true
@@ -841,6 +842,15 @@ func (g *G) program() *Program {
 		for _, n := range names {
 			avail = append(avail, Var{n, T})
 		}
+	}
+	if f0.Weaken() && g.coin(g.O.Cycle) {
+		// two top-level processes that refer to each other: one drops the other (a provider of
+		// negative type that first waits for the dropper to finish) and then ends
+		cm, cs := g.fresh("v"), g.fresh("v")
+		g.feat("drop-cycle")
+		g.P.Procs = append(g.P.Procs,
+			&Proc{Names: []string{cm}, T: Unit(f0), Body: &Term{Op: "drop", X: cs, Cont: &Term{Op: "print", Lbl: g.label(), Cont: &Term{Op: "close", X: "self"}}}},
+			&Proc{Names: []string{cs}, T: Recv(f0, Unit(f0), Unit(f0)), Body: &Term{Op: "wait", X: cm, Cont: &Term{Op: "print", Lbl: g.label(), Cont: &Term{Op: "recv", X: "self", Y: "dx", Z: "dy", Cont: &Term{Op: "wait", X: "dx", Cont: &Term{Op: "close", X: "self"}}}}}})
 	}
 	asExec := g.coin(g.O.Exec) && len(avail) == 0
 	mainSelf := "self"
